@@ -112,9 +112,9 @@ class ProxiedRegion(BaseClientRegion):
         """Register a cap to be completely handled by the proxy"""
         if name in self.caps:
             # If we have an existing cap then we should just use that.
-            cap_data = self.caps[name]
-            if cap_data[1] == CapType.PROXY_ONLY:
-                return cap_data[0]
+            cap_type, cap_url = self.caps[name]
+            if cap_type == CapType.PROXY_ONLY:
+                return cap_url
         cap_url = f"http://{uuid.uuid4()!s}.caps.hippo-proxy.localhost"
         self.register_cap(name, cap_url, CapType.PROXY_ONLY)
         return cap_url
